@@ -352,7 +352,9 @@ def _lex_loose(text: str):
                         out.append(chr(int(text[i + 2:i + 6], 16)))
                         i += 6
                     else:
-                        raise _Unreadable("bad escape")
+                        out.append(ch)          # an unknown escape is tolerated (kept as written): only the keys matter here
+                        out.append(e)
+                        i += 2
                 else:
                     out.append(ch)
                     i += 1
